@@ -259,12 +259,6 @@ func (r *rateLimiter) DoAcquire(upstream string, acquireRequest *proxyv1alpha1.R
 		return nil, fmt.Errorf("limit store for upstream %s upstream shard %v not found", upstream, shardId)
 	}
 
-	// the counts recorded below are reclaimed through the client cache only: an
-	// instance that disappears before its first heartbeat must be known too
-	if len(acquireRequest.Spec.Instance) > 0 {
-		r.clientCache.Observe(acquireRequest.Spec.Instance)
-	}
-
 	var resultLogs []string
 	var logging bool
 
@@ -340,6 +334,16 @@ func (r *rateLimiter) DoAcquire(upstream string, acquireRequest *proxyv1alpha1.R
 		resultLogs = append(resultLogs, rslog)
 
 		result.Results = append(result.Results, rs)
+	}
+
+	// The counts recorded above are reclaimed through the client cache only, so
+	// the instance must be known there: also one that disappears before its
+	// first heartbeat. This comes after the counts: the sweep of timed-out
+	// instances may remove a stale entry of this instance and clean its state
+	// while this call is under way, and a count recorded after that for an
+	// instance the cache does not know would never be reclaimed.
+	if len(acquireRequest.Spec.Instance) > 0 {
+		r.clientCache.Observe(acquireRequest.Spec.Instance)
 	}
 
 	// log_level >= 4 or has error: always logging
